@@ -55,6 +55,7 @@ class Tracker:
         self.handles = {'0': {}}       # client -> {handle name: ident}
         self.parent = {}               # client -> parent client
         self.transit = {}              # token -> ident
+        self.queued = []               # idents of the proxies in the shared multiprocessing.Queue (FIFO)
         self.content = {}              # container ident -> list of entries | dict key -> entry
         self.inner = {}                # maker ident -> (current incarnation ident | None)
         self.inner_of = {}             # inner incarnation ident -> maker ident
@@ -88,6 +89,7 @@ class Tracker:
     def refcount(self, i):
         n = sum(1 for hs in self.handles.values() for x in hs.values() if x == i)
         n += sum(1 for x in self.transit.values() if x == i)
+        n += sum(1 for x in self.queued if x == i)
         for c in self.alive:
             if c in self.content:
                 n += sum(1 for e in self.entries(c) if e == ('p', i))
@@ -240,6 +242,24 @@ def gen_case(rng: random.Random, tier: str, bias: str = ''):
         q = rng.choice(running())
         h = add_handle(q, i)
         emit('unpickle', q, ['unpickle', {'$saved': tok}, h], [f'unpickle {q} {i}'])
+        return True
+
+    def op_qput():
+        c = pick_handle()
+        if not c or len(T.queued) >= 3:
+            return False
+        p, h, i = c
+        T.queued.append(i)
+        emit('qput', p, ['qput', h], [f'pickle {p} {i}'])
+        return True
+
+    def op_qget():
+        if not T.queued:
+            return False
+        i = T.queued.pop(0)
+        q = rng.choice(running())
+        h = add_handle(q, i)
+        emit('qget', q, ['qget', h], [f'unpickle {q} {i}'])
         return True
 
     def op_spawn():
@@ -540,7 +560,8 @@ def gen_case(rng: random.Random, tier: str, bias: str = ''):
     ops = [(op_create, 5), (op_pickle, 3), (op_unpickle, 4), (op_spawn, 3 if bias != 'nospawn' else 0),
            (op_delete, 4), (op_store, 4), (op_storeplain, 1), (lambda: op_take('pop'), 3),
            (lambda: op_take('del'), 2), (lambda: op_take('get'), 3), (op_clear, 1), (op_managed, 7),
-           (op_exit, 2), (op_call, 1), (op_pass, 3), (op_readall, 2), (op_extend, 1), (op_par, 3)]
+           (op_exit, 2), (op_call, 1), (op_pass, 3), (op_readall, 2), (op_extend, 1), (op_par, 3),
+           (op_qput, 2), (op_qget, 3)]
     # every history starts with something to refer to
     op_create()
     n = 1
@@ -555,6 +576,8 @@ def gen_case(rng: random.Random, tier: str, bias: str = ''):
     if winddown:
         while T.transit:
             op_unpickle()
+        while T.queued:
+            op_qget()
         while True:
             cands = [q for q in running() if q != '0' and not any(T.parent.get(c) == q for c in running())]
             if not cands:
